@@ -338,6 +338,9 @@ def layout_variants(text, lg, rnd, nrandom):
         if l.strip() and not nxt_body and not (l.rstrip().endswith("=") and " array " in l):
             outl += ["", "# own line"]
     variants["blank_and_comment_lines"] = "\n".join(outl)
+    for base in ("comments", "blank_and_comment_lines", "spaces1"):
+        variants[base + "_cr"] = variants[base].replace("\n", "\r")
+        variants[base + "_crlf"] = variants[base].replace("\n", "\r\n")
     variants["crlf"] = text.replace("\n", "\r\n")
     variants["cr"] = text.replace("\n", "\r")
     variants["tabs"] = "\n".join(("\t" + l[4:] if l.startswith("    ") else l) for l in lines)
